@@ -20,6 +20,8 @@ import WntrModel.Lemmas.RunLoopShape
 import WntrModel.Gen.RunLoopShape
 import WntrModel.Lemmas.RunLoopTables
 import WntrModel.Lemmas.RunLoopSched
+import WntrModel.Lemmas.RunLoopTank
+import WntrModel.Lemmas.PresolveProg
 import WntrModel.Props.C14
 
 namespace Wntr.RunLoop
@@ -574,7 +576,7 @@ a fresh model, or a continued one whose `_rule_iter` was set by `run_sim`) -/
 theorem sched_world_contract (hR : 0 < scfg.rule) (hH : 1 ≤ cfg.hyd) (w0 : Wntr.Sched.St × A) (simTime prevTime : Int)
     (hI : Wntr.Sched.Inv scfg { w0.1 with simTime := simTime, prevTime := if simTime = 0 then -1 else prevTime }) :
     Contract (schedWorld scfg solveF postF nodeRowF linkRowF) cfg (enter cfg w0 simTime prevTime) := by
-  apply sched_contract scfg solveF postF nodeRowF linkRowF cfg hR hH
+  apply sched_contract scfg (Wntr.Sched.presolve scfg) solveF postF nodeRowF linkRowF cfg (lands_presolve scfg hR) hH
   have hJ : J scfg (init (RN := RN) (RL := RL) w0 simTime prevTime) := by
     by_cases h0 : simTime = 0
     · subst h0
@@ -602,6 +604,93 @@ theorem run_terminates_time_conditions (hR : 0 < scfg.rule) (w0 : Wntr.Sched.St 
     (fuel cfg (enter (W := Wntr.Sched.St × A) (RN := RN) (RL := RL) cfg w0 simTime prevTime).simTime
       (enter (W := Wntr.Sched.St × A) (RN := RN) (RL := RL) cfg w0 simTime prevTime).prevTime)
   exact ⟨a, b, c, f, g, h⟩
+
+/-! #### the presolve pass as the GENERATED scheduler program, and as the C04 loop over any due list -/
+
+/-- the presolve pass regenerated from `_compute_next_timestep_and_run_presolve_controls_and_rules` (C04's translator:
+`Gen/PresolveShape.lean`, interpreter `Model/PresolveProg.lean`) -/
+def generatedPresolve (first : Bool) (s : Wntr.Sched.St) : Wntr.Sched.St :=
+  Wntr.PresolveProg.interpLoop scfg s.vals (Wntr.PresolveProg.runPrologue scfg first s Wntr.Gen.PresolveShape.prologue) first
+    (Wntr.Sched.presolveFuel scfg (Wntr.PresolveProg.runPrologue scfg first s Wntr.Gen.PresolveShape.prologue) s) 0 s
+
+/-- **run_terminates_generated_scheduler**: the loop read off `run_sim` (sections 1-5) around the presolve pass read off
+`_compute_next_timestep_and_run_presolve_controls_and_rules` (C04, `generated_method_is_presolve`), any solver, any post-solve
+controls: the contract holds, so the run terminates with a well-formed index -- no oracle, no contract premise -/
+theorem run_terminates_generated_scheduler (hR : 0 < scfg.rule) (w0 : Wntr.Sched.St × A) {simTime prevTime : Int}
+    (hS : Start cfg simTime prevTime)
+    (hI : Wntr.Sched.Inv scfg { w0.1 with simTime := simTime, prevTime := if simTime = 0 then -1 else prevTime }) :
+    let F := runSim (schedWorldP (generatedPresolve scfg) solveF postF nodeRowF linkRowF) cfg w0 simTime prevTime
+    F.halt ≠ none ∧ F.times.Pairwise (· < ·) ∧ F.times = F.accepted.filter (reportNow cfg) ∧
+    F.halt ≠ some .raiseAlreadySolved := by
+  have hP : generatedPresolve scfg = Wntr.Sched.presolve scfg := by
+    funext first s
+    exact Wntr.PresolveProg.generated_method_is_presolve scfg first s
+  rw [hP]
+  intro F
+  obtain ⟨a, b, c, _, _, h⟩ := run_terminates_time_conditions cfg scfg solveF postF nodeRowF linkRowF hR w0 hS hI
+  exact ⟨a, b, c, h⟩
+
+/-- a due list built the way the code builds it -- stable sorts, first-step override -- from raw entries whose backtracks lie
+in `[0, cur − prev)` satisfies C04's `LoopCtx` -/
+theorem loopCtx_of_bounds (hR : 0 < scfg.rule) (raw : List Wntr.Sched.Due) (first : Bool) (cur prev : Int) (hlt : prev < cur)
+    (hb : ∀ d ∈ raw, 0 ≤ d.back ∧ d.back < cur - prev) :
+    Wntr.Sched.LoopCtx scfg
+      (if first then (Wntr.Sched.sortDue raw).map (fun d => { d with back := 0 }) else Wntr.Sched.sortDue raw) cur prev := by
+  cases first with
+  | true =>
+    simp only [if_true]
+    refine ⟨hR, hlt, ?_, ?_, ?_⟩
+    · apply Wntr.Sched.pairwise_of_all
+      intro a ha b hb'
+      obtain ⟨a', _, rfl⟩ := List.mem_map.1 ha
+      obtain ⟨b', _, rfl⟩ := List.mem_map.1 hb'
+      simp
+    · intro d hd; obtain ⟨d', _, rfl⟩ := List.mem_map.1 hd; simp
+    · intro d hd; obtain ⟨d', _, rfl⟩ := List.mem_map.1 hd; simp only; omega
+  | false =>
+    simp only [Bool.false_eq_true, if_false]
+    exact ⟨hR, hlt, Wntr.Sched.sortDue_sorted _, fun d hd => (hb d (Wntr.Sched.mem_sortDue.1 hd)).1,
+      fun d hd => (hb d (Wntr.Sched.mem_sortDue.1 hd)).2⟩
+
+/-- **run_terminates_time_and_tank_conditions**: the presolve pass is C04's loop over the due list `rawDue` returns -- ANY
+mixture of presolve controls (time conditions, tank-level conditions ...) -- sorted as the code sorts it.  If every reported
+backtrack lies in `[0, cur − prev)` (time conditions: C04 `backtrack_inside_step`; tank-level conditions in exact arithmetic:
+`Wntr.Tank.tank_backtrack_inside_step`; in doubles see finding `tank-backtrack-whole-step`), the run terminates with a
+well-formed index, for every solver and post-solve behaviour. -/
+theorem run_terminates_time_and_tank_conditions (hR : 0 < scfg.rule)
+    (rawDue : Bool → Wntr.Sched.St → List Wntr.Sched.Due)
+    (hB : ∀ first s, s.prevTime < s.simTime → ∀ d ∈ rawDue first s, 0 ≤ d.back ∧ d.back < s.simTime - s.prevTime)
+    (w0 : Wntr.Sched.St × A) {simTime prevTime : Int} (hS : Start cfg simTime prevTime)
+    (hI : Wntr.Sched.Inv scfg { w0.1 with simTime := simTime, prevTime := if simTime = 0 then -1 else prevTime }) :
+    let P : Bool → Wntr.Sched.St → Wntr.Sched.St := fun first s =>
+      Wntr.Sched.presolveLoop scfg s.vals
+        (if first then (Wntr.Sched.sortDue (rawDue first s)).map (fun d => { d with back := 0 }) else Wntr.Sched.sortDue (rawDue first s))
+        (Wntr.Sched.presolveFuel scfg
+          (if first then (Wntr.Sched.sortDue (rawDue first s)).map (fun d => { d with back := 0 }) else Wntr.Sched.sortDue (rawDue first s)) s) 0 s
+    let F := runSim (schedWorldP P solveF postF nodeRowF linkRowF) cfg w0 simTime prevTime
+    F.halt ≠ none ∧ F.times.Pairwise (· < ·) ∧ F.times = F.accepted.filter (reportNow cfg) ∧
+    F.halt ≠ some .raiseAlreadySolved := by
+  intro P F
+  have hP : ∀ first s, Wntr.Sched.Inv scfg s → Lands scfg s (P first s) := fun first s inv =>
+    lands_loop scfg _ s inv (loopCtx_of_bounds scfg hR (rawDue first s) first s.simTime s.prevTime inv.lt (hB first s inv.lt))
+  have hJ0 : (enter (RN := RN) (RL := RL) cfg w0 simTime prevTime).halt ≠ none ∨ J scfg (enter (RN := RN) (RL := RL) cfg w0 simTime prevTime) := by
+    have hJ : J scfg (init (RN := RN) (RL := RL) w0 simTime prevTime) := by
+      by_cases h0 : simTime = 0
+      · subst h0
+        simp only [if_true] at hI
+        exact ⟨by simp [init], hI.rl, fun _ => ⟨by simpa [init] using hI.hi, by simpa [init] using hI.lo⟩, fun h => by simp [init] at h⟩
+      · simp only [h0, if_false] at hI
+        exact ⟨by simpa [init, h0] using hI.lt, hI.rl, fun _ => ⟨by simpa [init, h0] using hI.hi, by simpa [init, h0] using hI.lo⟩,
+          fun h => by simp [init] at h⟩
+    rcases enter_cases (RN := RN) (RL := RL) cfg w0 simTime prevTime with e | ⟨e, _⟩
+    · rw [e]; exact Or.inr hJ
+    · rw [e]; exact Or.inl (by simp)
+  have hC := sched_contract scfg P solveF postF nodeRowF linkRowF cfg hP hS.hyd_pos _ hJ0
+  obtain ⟨a, _, _⟩ := run_terminates (schedWorldP P solveF postF nodeRowF linkRowF) cfg w0 hS hC
+  obtain ⟨b, _, c, _, _, _, _, h⟩ := times_strictly_increasing_on_grid (schedWorldP P solveF postF nodeRowF linkRowF) cfg w0 hS hC
+    (fuel cfg (enter (W := Wntr.Sched.St × A) (RN := RN) (RL := RL) cfg w0 simTime prevTime).simTime
+      (enter (W := Wntr.Sched.St × A) (RN := RN) (RL := RL) cfg w0 simTime prevTime).prevTime)
+  exact ⟨a, b, c, h⟩
 
 /-- non-vacuity: a fresh model (`Sched.startState`, whose invariant is C04's `startState_inv`) with any time controls and
 rules, any solver, any post-solve controls: `run_sim` terminates -/
